@@ -1724,6 +1724,8 @@ def real_samples(
             neg_diff = diff_ulp(abs(min_value), min_pos_value)
             pos_diff = diff_ulp(abs(max_value), min_pos_value)
             neg_num = int(neg_diff * num / max(1, neg_diff + pos_diff))
+            # each side must hold at least its two end points
+            neg_num = min(max(neg_num, 2), max(2, num - int(bool(include_zero)) - 2))
             pos_num = num - neg_num - int(bool(include_zero))
 
             neg_part = real_samples(
